@@ -123,3 +123,63 @@ def cases(tier, rng=None):
         out.append(lagrange_pts_case((3, 0, 1, 2), 'int'))
         out.append(lagrange_pts_case((1, 3, 2, 0), ('const', 4)))
     return out
+
+
+# ---------------------------------------------------------------------------------------------------------------------
+# FluxSurfaceAdvection.__init__: establishes what step() and the kernels rely on (class invariant): the theta / z point
+# arrays are the caller's eta_grid[1] / eta_grid[2], the work array is [n_z, n_theta, zDegree+1], the tables are built by
+# _getLagrangePts from the SAME eta_grid, layout and dt and from the constants' own iota and R0 (callee precondition; the
+# table contents are the contract of _getLagrangePts proved above on its slice).
+# ---------------------------------------------------------------------------------------------------------------------
+CONSTS = 'pygyro/initialisation/constants.py'
+
+
+def init_case():
+    lay = {'__class__': LY + '::Layout', '_name': ('const', 'lay'), '_dims_order': ('const', (0, 3, 1, 2)),
+           '_inv_dims_order': ('const', (0, 2, 3, 1)), '_ndims': ('const', 4), '_starts': 'tuple4int', '_ends': 'tuple4int',
+           '_shape': 'tuple4int'}
+    cst = {'__class__': CONSTS + '::Constants', 'iotaVal': 'float', 'R0': 'float'}
+    nR, nV = 'layout._shape[0]', 'layout._shape[1]'
+    C = {
+        'iota_fn': dict(abstract=True, pure=True, elementwise=True, returns='float', params_order=['r'], requires=[], ensures=[],
+                        modifies=[]),
+        CONSTS + '::Constants.iota': dict(inline=True, implements=['iota_fn']),
+        SI + '::SplineInterpolator1D.__init__': dict(abstract=True, params_order=['self', 'basis'], requires=[], ensures=[], modifies=[],
+                                                     creates={'_basis': ('expr', 'basis')}),
+        SPL + '::Spline1D.__init__': dict(abstract=True, params_order=['self', 'basis'], requires=[], ensures=[], modifies=[],
+                                          creates={'_basis': ('expr', 'basis')}),
+        A + '::FluxSurfaceAdvection._getLagrangePts': dict(
+            abstract=True, params_order=['self', 'eta_grid', 'layout', 'dt', 'iota', 'R0'], funparams={'iota': 'iota_fn'},
+            requires=["self is caller('self')", "len(eta_grid) == 4 and eta_grid[0] is caller('eta_grid')[0] and eta_grid[1] is caller('eta_grid')[1] and "
+                      "eta_grid[2] is caller('eta_grid')[2] and eta_grid[3] is caller('eta_grid')[3]", "layout is caller('layout')", "dt == caller('dt')",
+                      "R0 == caller('constants').R0",
+                      # the stencil size must be known to the table builder: set before the call
+                      "self._zLagrangePts == caller('zDegree') + 1"],
+            modifies=[],
+            creates={'_shifts': 'iarr3', '_thetaShifts': 'arr3', '_lagrangeCoeffs': 'arr3'},
+            ensures=['shape(self.%s)[0] == %s and shape(self.%s)[1] == %s and shape(self.%s)[2] == self._zLagrangePts' % (t, nR, t, nV, t)
+                     for t in ('_shifts', '_thetaShifts', '_lagrangeCoeffs')]),
+        A + '::FluxSurfaceAdvection.__init__': dict(
+            params={'self': {'__class__': A + '::FluxSurfaceAdvection'}, 'eta_grid': 'list4arr1',
+                    'splines': ('list', [{'__class__': SPL + '::BSplines'}, {'__class__': SPL + '::BSplines'}]),
+                    'layout': lay, 'dt': 'float', 'constants': cst, 'zDegree': 'int'},
+            requires=['zDegree >= 0'], modifies=[],
+            ensures=['self._zLagrangePts == zDegree + 1',
+                     'len(self._points) == 2 and self._points[0] is eta_grid[1] and self._points[1] is eta_grid[2]',
+                     'self._nPoints[0] == len(eta_grid[1]) and self._nPoints[1] == len(eta_grid[2])',
+                     'self._interpolator._basis is splines[0] and self._thetaSpline._basis is splines[0]',
+                     # work array of the kernels: [n_z, n_theta, stencil]
+                     'shape(self._LagrangeVals)[0] == len(eta_grid[2]) and shape(self._LagrangeVals)[1] == len(eta_grid[1]) and '
+                     'shape(self._LagrangeVals)[2] == zDegree + 1',
+                     # the three tables agree in their (r, v) extents: precondition of step()
+                     'shape(self._thetaShifts)[0] == shape(self._shifts)[0] and shape(self._thetaShifts)[1] == shape(self._shifts)[1]',
+                     'shape(self._lagrangeCoeffs)[0] == shape(self._shifts)[0] and shape(self._lagrangeCoeffs)[1] == shape(self._shifts)[1]']),
+    }
+    return dict(label='FluxSurfaceAdvection.__init__', struct=None, key=A + '::FluxSurfaceAdvection.__init__', contracts=C)
+
+
+_cases2 = cases
+
+
+def cases(tier, rng=None):
+    return _cases2(tier, rng) + [init_case()]
